@@ -196,12 +196,48 @@ func propC10(c *Ctx) {
 	for k := 0; k < nr; k++ {
 		c.respell(c.rng.Intn(10), c.randUnicode(14), false)
 	}
-	// other compatibility spaces between the words
-	eng := c.specSentence(int64(langVals[2]), c.randBytes(16))
-	for _, sp := range []string{" ", " ", " ", " ", " "} {
-		impl, _ := c.chk("compat-space", int64(langVals[2]), strings.ReplaceAll(eng, " ", sp))
-		if impl != "ok" {
-			r.violate(Violation{Kind: "property", Class: "compat-space", Op: "chk English with " + fmt.Sprintf("%U", []rune(sp)[0]), Impl: impl, Detail: "NFKD maps this space to U+0020"})
+	// EVERY code point whose NFKD form is U+0020, as the separator (all of them, one at a time and mixed)
+	buildPreimages()
+	for li := range langVals {
+		l := int64(langVals[li])
+		s := strings.ReplaceAll(c.specSentence(l, c.randBytes(entSizes[li%5])), "　", " ")
+		for _, sp := range nfkdSpaces {
+			if c.quick && li%3 != int(r.Seed%3) && li != 2 {
+				continue
+			}
+			for _, v := range []string{strings.ReplaceAll(s, " ", sp), strings.Replace(s, " ", sp, 1)} {
+				impl, _ := c.chk("compat-space", l, v)
+				if impl != "ok" {
+					r.violate(Violation{Kind: "property", Class: "compat-space", Op: fmt.Sprintf("chk %d %s", l, hx([]byte(v))), Impl: impl,
+						Detail: fmt.Sprintf("valid mnemonic with %U between words: NFKD maps it to U+0020", []rune(sp)[0])})
+				}
+			}
+		}
+	}
+	// reverse decompositions: any substring replaced by a code point whose NFKD form it is (full-width and
+	// half-width forms, ligatures, Kangxi radicals and compatibility ideographs, compatibility jamo, …)
+	nrev := 12 * c.scale
+	if !c.quick {
+		nrev = 400
+	}
+	for li := range langVals {
+		l := int64(langVals[li])
+		found := 0
+		for try := 0; try < nrev*20 && found < nrev; try++ {
+			s := strings.ReplaceAll(c.specSentence(l, c.randBytes(entSizes[try%5])), "　", " ")
+			v := c.respellByPreimages(s, 20+c.rng.Intn(80))
+			if v == "" {
+				continue
+			}
+			found++
+			if c.rng.Intn(2) == 0 {
+				v = strings.ReplaceAll(v, " ", "　")
+			}
+			impl, _ := c.chk("reverse-decomposition", l, v)
+			if impl != "ok" {
+				r.violate(Violation{Kind: "property", Class: "reverse-decomposition", Op: fmt.Sprintf("chk %d %s", l, hx([]byte(v))), Impl: impl,
+					Detail: "a valid mnemonic re-spelled with compatibility code points (same NFKD form) is rejected"})
+			}
 		}
 	}
 	r.sample("chk French <valid sentence, NFC, U+3000 separators> -> ok (same as NFKD with U+0020)")
@@ -261,6 +297,39 @@ func propC11(c *Ctx) {
 	}
 	for k := 0; k < nr; k++ {
 		group("unicode-heavy", c.randUnicode(6), c.randUnicode(6))
+	}
+	// compatibility re-spellings (reverse decompositions) of both arguments
+	nrev := 10 * c.scale
+	if !c.quick {
+		nrev = 300
+	}
+	for k := 0; k < nrev; k++ {
+		li := c.rng.Intn(10)
+		m := strings.ReplaceAll(c.specSentence(int64(langVals[li]), c.randBytes(entSizes[k%5])), "　", " ")
+		p := norm.NFKD.String(c.randUnicode(5) + m[:c.rng.Intn(len(m)/2+1)])
+		if !streamSafeGuess(m + p) {
+			continue
+		}
+		base := implSeed(m, p)
+		r.count("reverse-decomposition:pair")
+		for t := 0; t < 3; t++ {
+			mv, pv := c.respellByPreimages(m, 50), c.respellByPreimages(p, 70)
+			if mv == "" {
+				mv = m
+			}
+			if pv == "" {
+				pv = p
+			}
+			if norm.NFKD.String(pv) != norm.NFKD.String(p) || norm.NFKD.String(mv) != norm.NFKD.String(m) {
+				continue
+			}
+			got := implSeed(mv, pv)
+			r.nontrivial(mv + "\x00" + pv)
+			if got != base {
+				r.violate(Violation{Kind: "property", Class: "reverse-decomposition", Op: fmt.Sprintf("seed %s %s vs seed %s %s", hx([]byte(m)), hx([]byte(p)), hx([]byte(mv)), hx([]byte(pv))),
+					Impl: got, Spec: base, Detail: "equal NFKD forms (compatibility re-spelling), different seeds"})
+			}
+		}
 	}
 	ja := c.specSentence(int64(langVals[5]), c.randBytes(16))
 	a := implSeed(ja, "メートルガバヴァぱばぐゞちぢ十人十色")
